@@ -444,7 +444,7 @@ fn hostile_bytes(r: &mut Rng) -> Vec<u8> {
         6 => { let mut q = mk_query(r.u16(), 0, &[5], 1, None); q[12] = 0xc0; q[13] = 0x0c; q }        // self-pointing name
         7 => { let mut q = mk_query(r.u16(), 0, &[2], 1, Some(1232)); let l = q.len(); q[l - 1] = 0xff; q } // OPT rdlen overruns
         _ => { // many questions
-            let k = r.range(2, 60) as usize;
+            let k = r.range(2, 140) as usize;
             let mut q = vec![r.u8(), r.u8(), 0, 0, (k >> 8) as u8, k as u8, 0, 0, 0, 0, 0, 0];
             for _ in 0..k { q.extend_from_slice(&[1, b'a', 0, 0, 1, 0, 1]); }
             q
@@ -554,7 +554,8 @@ fn main() {
     // ---- udp: one request through the real middleware stack
     let n_udp = if a.thorough { 40_000 } else { 5_000 } * scale;
     let mut udp_cases: Vec<UdpCase> = vec![];
-    // corpus: the limit boundary with and without EDNS, the truncated form with a large OPT
+    // corpus: the limit boundary with and without EDNS (regression of 2e0728b), the truncated form
+    // with a large OPT (regression of b664034: falls back to an OPT without options)
     for (client, cfg, total) in [(None, Some(1232u16), 512usize), (None, Some(1232), 513), (None, Some(1232), 1232), (None, Some(1232), 1233), (None, None, 512), (None, None, 513),
         (Some(4096u16), Some(1232), 1232), (Some(4096), Some(1232), 1233), (Some(100), Some(1232), 512), (Some(100), Some(1232), 513), (Some(1232), Some(4096), 1232),
         (Some(1232), Some(4096), 1233), (Some(65535), None, 65000), (Some(512), Some(512), 512), (Some(512), Some(512), 513)] {
@@ -829,6 +830,9 @@ async fn run_dgram(recs: &mut Vec<Rec>, r: &mut Rng, rounds: u64, idx: &mut u64,
                 *recs = o.recs;
             }
         }
+        // not asserted (C16_udp_size_bound_proviso_needed): error responses that echo very many
+        // questions of a hostile request cannot be cut below header + questions; counted only
+        for (_, d) in outv.iter() { if d.len() > 512 && d[0] == 0xee { recs.push(Rec::Count("n_hostile_many_question_responses_over_512")); } }
         chk(recs, outv.iter().all(|(a, _)| *a == client_addr()), "wrong_destination", &desc, "a response went to another address".into());
         // liveness: a final plain request is answered and the server task is alive
         sh.table.lock().unwrap().clear(); // the probe gets the default behaviour whatever its id
